@@ -35,17 +35,23 @@ func vpSignMaybe(priv crypto.PrivKey, msg []byte, valid bool) []byte {
 }
 
 // vpPowers returns n symbolic voting powers with 1 <= p and sum <= MaxTotalVotingPower.
-func vpPowers(n int) []int64 {
+func vpPowers(n int) []int64 { return vpPowersMax(n, MaxTotalVotingPower) }
+
+// vpPowersMax: as vpPowers with the total bounded by max.
+func vpPowersMax(n int, max int64) []int64 {
 	ps := make([]int64, n)
 	sum := int64(0)
 	for i := range ps {
 		ps[i] = vp.Int64("power")
-		vp.Assume(ps[i] >= 1 && ps[i] <= MaxTotalVotingPower)
+		vp.Assume(ps[i] >= 1 && ps[i] <= max)
 		sum += ps[i]
-		vp.Assume(sum <= MaxTotalVotingPower)
+		vp.Assume(sum <= max)
 	}
 	return ps
 }
+
+// vpMoreThan reports num*a > den*b... i.e. a/b > den/num for small constant factors (no overflow for a, b <= 2^60, factors <= 3).
+func vpMoreThan23(p, total uint64) bool { return 3*p > 2*total }
 
 // vpValSetRaw builds a validator set directly (no sorting / priority computation: see C08 for those).
 func vpValSetRaw(keys []ed25519.PrivKey, powers []int64) *ValidatorSet {
